@@ -34,11 +34,20 @@ pub fn world_a_extra(stats: &Stats) -> serde_json::Value {
     serde_json::json!({
         "logical_steps": stats.c.get("loader_events"),
         "logical_steps_unit": "loader events (find_file calls and read streams)",
-        "simulated_time_note": "rsass has no clock, timer or deadline; time is reported as logical steps",
+        "simulated_time_note": "rsass has no clock, timer or deadline (std::time is routed to a settable clock whose reads are counted: probe clock_reads); time is reported as logical steps",
+        "how_rsass_is_built": "instrumented copy of /repo/rsass/src made at check time by tools/instrument.py (std::sync/std::thread/thread_local!/std::time -> harness/shim in std mode = the std items themselves; std::fs and the path predicates of input/ -> harness/fsshim, pass-through unless a SimFs backend is installed on the thread)",
         "components": {
-            "real": ["rsass parser, evaluator, Context (lock set), CssData (module cache), output", "std::sync primitives", "arc_swap, fastrand, nom"],
-            "stub": ["Loader implementation: SimLoader over SimFs (in-memory POSIX-like tree) or over the spec corpus' mock table, with the fault layer"],
-            "not_run": ["rsass-cli", "FsLoader / CargoLoader (cross-validated separately)"],
+            "real": [
+                "rsass parser, evaluator, Context (lock set), CssData (module cache), output",
+                "rsass' own FsLoader and CargoLoader (C04: every layout / every 3rd; C39: every generated graph / every 3rd) running over the simulated file system; FsLoader on the real disk (C04 every 6th layout, C02/C04 cross-validation every 40th run)",
+                "std::sync primitives",
+                "arc_swap, fastrand, nom"
+            ],
+            "stub": [
+                "file system: SimFs (in-memory POSIX-like tree: lexical . and .., no symlinks, case-sensitive, open() of a directory succeeds and fails on read) with the fault layer - below the Loader trait for the stub loader, below std::fs for the real loaders",
+                "Loader implementation where the stub is used: SimLoader over SimFs or over the spec corpus' mock table"
+            ],
+            "not_run": ["rsass-cli (C40 runs it as a real process)"],
         },
     })
 }
